@@ -361,6 +361,7 @@ func rulesC09(c *Ctx) {
 	c.Floor("C09.signtest", nSign, 10)
 	shortcutsC09(c, tt, "C09.shortcuts")
 	promoteC09(c)
+	dispatchC09(c)
 	zoneC09(c)
 }
 
@@ -697,4 +698,104 @@ func promoteC09(c *Ctx) {
 	}
 	c.OK("C09.timeeq", "time.Time comparisons examined", 0, fmt.Sprintf("%d struct comparisons of instants in the package", nEq))
 	c.Floor("C09.promote", nConv, 15)
+}
+
+// dispatchC09: when the folder re-dispatches on converted operands, left
+// stays left and right stays right; and integer folding never takes an
+// integer quotient.
+func dispatchC09(c *Ctx) {
+	p := c.P
+	c.Rule("C09.dispatch", "every call from one reduceBinaryExpr*LHS function to another passes as left operand a value computed from its own left operand only and as right operand a value computed from its own right operand only: a converted copy of the wrong side compares or combines an operand with itself")
+	c.Rule("C09.intdiv", "no reduceBinaryExpr* function divides two int64 values with Go's integer `/`: the property's integer division is float division (the integer quotient truncates, and MinInt64 / -1 wraps)")
+	nCalls, nDiv := 0, 0
+	for _, fn := range p.SrcFuncs() {
+		if !strings.HasPrefix(fn.Name(), "reduceBinaryExpr") || len(fn.Params) < 3 {
+			continue
+		}
+		var lhsP, rhsP *ssa.Parameter
+		for _, prm := range fn.Params {
+			switch prm.Name() {
+			case "lhs":
+				lhsP = prm
+			case "rhs":
+				rhsP = prm
+			}
+		}
+		for _, b := range fn.Blocks {
+			for _, in := range b.Instrs {
+				if bo, ok := in.(*ssa.BinOp); ok && bo.Op == token.QUO {
+					if bt, ok := bo.X.Type().(*types.Basic); ok && bt.Kind() == types.Int64 {
+						nDiv++
+						c.Bad("C09.intdiv", fmt.Sprintf("%s: int64 / int64 #%d", fn.Name(), nDiv), bo.Pos(), "an integer quotient is folded where the evaluator divides as floats: the result is truncated, differs beyond 2^53 and wraps for MinInt64 / -1")
+					}
+				}
+				call, ok := in.(*ssa.Call)
+				if !ok || lhsP == nil || rhsP == nil {
+					continue
+				}
+				cal := call.Call.StaticCallee()
+				if cal == nil || !strings.HasPrefix(cal.Name(), "reduceBinaryExpr") || !strings.HasSuffix(cal.Name(), "LHS") || len(call.Call.Args) < 3 {
+					continue
+				}
+				nCalls++
+				key := fmt.Sprintf("%s: call #%d of %s", fn.Name(), nCalls, cal.Name())
+				src := func(v ssa.Value) (l, r bool) {
+					seen := map[ssa.Value]bool{}
+					var walk func(v ssa.Value, d int)
+					walk = func(v ssa.Value, d int) {
+						if v == nil || seen[v] || d > 12 {
+							return
+						}
+						seen[v] = true
+						if v == ssa.Value(lhsP) {
+							l = true
+							return
+						}
+						if v == ssa.Value(rhsP) {
+							r = true
+							return
+						}
+						if a, ok := v.(*ssa.Alloc); ok {
+							// a literal built here: what is stored into its fields
+							for _, ref := range *a.Referrers() {
+								if fa, ok := ref.(*ssa.FieldAddr); ok {
+									for _, r2 := range *fa.Referrers() {
+										if st, ok := r2.(*ssa.Store); ok && st.Addr == ssa.Value(fa) {
+											walk(st.Val, d+1)
+										}
+									}
+								}
+							}
+							return
+						}
+						if in, ok := v.(ssa.Instruction); ok {
+							for _, op := range in.Operands(nil) {
+								if *op != nil {
+									if _, isFn := (*op).(*ssa.Function); !isFn {
+										walk(*op, d+1)
+									}
+								}
+							}
+						}
+					}
+					walk(v, 0)
+					return
+				}
+				al, ar := src(call.Call.Args[1])
+				bl, br := src(call.Call.Args[2])
+				switch {
+				case ar && !al:
+					c.Bad("C09.dispatch", key, call.Pos(), "the left operand handed on is computed from this function's right operand")
+				case bl && !br:
+					c.Bad("C09.dispatch", key, call.Pos(), "the right operand handed on is computed from this function's left operand: the operator is applied between an operand and (a conversion of) itself")
+				case al && !ar && br && !bl:
+					c.OK("C09.dispatch", key, call.Pos(), "left from left, right from right")
+				default:
+					c.Unk("C09.dispatch", key, call.Pos(), fmt.Sprintf("operand origins not separable (left arg from lhs=%v rhs=%v; right arg from lhs=%v rhs=%v)", al, ar, bl, br))
+				}
+			}
+		}
+	}
+	c.OK("C09.intdiv", "int64 quotients in the folder", 0, fmt.Sprintf("%d", nDiv))
+	c.Floor("C09.dispatch", nCalls, 8)
 }
